@@ -134,7 +134,18 @@ impl VerificationThread {
         let mut block = result.unwrap();
         block.routed_from_peer = Some(peer_index);
 
-        block.generate().unwrap();
+        if block.generate().is_err() {
+            warn!(
+                "failed generating metadata for the block fetched as : {:?}-{:?}",
+                block_id,
+                block_hash.to_hex()
+            );
+            let mut peers = self.peer_lock.write().await;
+            if let Some(peer) = peers.find_peer_by_index_mut(peer_index) {
+                peer.invalid_block_limiter.increase();
+            }
+            return;
+        }
 
         if block.id != block_id || block.hash != block_hash {
             warn!(
